@@ -269,7 +269,7 @@ def run_case(case, mir, schema, native=None, quick=True):
                     okr, _ = h.reachable(o, tmo_ms=15000)
                     nerr += 1 if okr else 0
             res["reachable_err_outcomes"] = nerr
-            if nerr == 0 and res["status"] == "pass":
+            if nerr == 0 and res["status"] == "pass" and not any(r_.get("status") == "violated" for r_ in h.obligations):
                 res["status"] = "inconclusive"
                 res["inconclusive"].append("vacuous: no rejecting (Err) outcome is reachable under the assumptions")
         res["reachable_ok_outcomes"] = nreach
